@@ -201,14 +201,19 @@ func (t *Template) unexpected(token item, context, expected string) {
 func (t *Template) recover(errp *error) {
 	e := recover()
 	if e != nil {
-		if _, ok := e.(runtime.Error); ok {
-			panic(e)
-		}
-		if t != nil {
+		// let the lexer goroutine finish, also when the panic is passed on
+		if t != nil && t.lex != nil {
 			t.lex.drain()
 			t.stopParse()
 		}
-		*errp = e.(error)
+		if _, ok := e.(runtime.Error); ok {
+			panic(e)
+		}
+		if err, ok := e.(error); ok {
+			*errp = err
+		} else {
+			*errp = fmt.Errorf("template: %s: %v", t.ParseName, e)
+		}
 	}
 	return
 }
